@@ -312,6 +312,7 @@ package drpcwire
 //@   ghost entry werr = nil
 //@   site Write assert [C07.whole-buffer] held(b.mu) && arg1 == b.buf && len(arg1) > 0 && wrote == 0
 //@   check [once]     wrote <= 1
+//@   check [C07,C05.written-bytes-dropped] wrote == 1 ==> len(b.buf) == 0 && b.empty == 0
 //@   check [err]      err == werr
 //@   check [noerr]    wrote == 0 ==> err == nil
 
@@ -323,6 +324,7 @@ package drpcwire
 //@   ghost after:Write werr = ret1
 //@   ghost entry werr = nil
 //@   site Write assert [C07.whole-buffer] held(b.mu) && arg1 == b.buf && len(arg1) > 0 && wrote == 0
+//@   check [C07,C05.flush-empties] len(b.buf) == 0 && b.empty == 0
 //@   check [once]     wrote <= 1
 //@   check [err]      err == werr
 //@   check [noerr]    wrote == 0 ==> err == nil
